@@ -500,6 +500,12 @@ def exec_task(task):
            "truncated": truncated, "outcomes": {}, "disagreements": [], "failures": [], "nontrivial": 0,
            "codes": {}, "names": names, "net": net}
     bad = compare_with_model(net, results) if task.get("compare", True) else []
+    if task.get("compare", True):
+        cov = lib.run_model("C06", ["netcover " + " ".join(map(str, net))])[0].split()
+        out["cover"] = cov
+        if cov != ["1", "1"]:
+            bad = [(0, "the network wired by ThreadedMailboxProcessor does not satisfy the premises of the shutdown theorem "
+                       "C06_noticed_failure_shuts_down (cover_b, init_ok_b = %s)" % cov)] + bad
     fam = family_line(case, net) if task.get("compare", True) else None
     out["family"] = None
     if fam is not None:
